@@ -47,6 +47,7 @@ type Engine struct {
 	fuel     int
 
 	ifaceAsserts   map[string]*types.Interface
+	contentUFs     map[string]bool // uninterpreted functions of byte-string contents (ufcontent)
 	mutableGlobals map[*ssa.Global]bool
 	globalWriters  map[*ssa.Global][]string
 	recCache       map[*ssa.Function]bool
@@ -64,7 +65,7 @@ func NewEngine(repo string) (*Engine, error) {
 	e := &Engine{repo: repo, pkgs: map[string]*ssa.Package{}, tpkgs: map[string]*packages.Package{}, specs: map[string]*PkgSpec{},
 		funcIDs: map[*ssa.Function]int{}, funcByID: map[int]*ssa.Function{}, typeTags: map[string]int{},
 		trustedUsed: map[string]bool{}, assumptions: map[string]bool{}, loopInfo: map[*ssa.Function]*loopInfo{}, initDone: map[string]*initResult{}, maxPaths: 20000, fuel: 2,
-		ifaceAsserts: map[string]*types.Interface{}, recCache: map[*ssa.Function]bool{}, ufSpecs: map[string]*ufSpec{}, lemmasUsed: map[string]bool{}, unfoldCache: map[string]*Term{}, hintTerms: map[*Term]bool{}}
+		ifaceAsserts: map[string]*types.Interface{}, contentUFs: map[string]bool{}, recCache: map[*ssa.Function]bool{}, ufSpecs: map[string]*ufSpec{}, lemmasUsed: map[string]bool{}, unfoldCache: map[string]*Term{}, hintTerms: map[*Term]bool{}}
 	e.ar = &Arith{Mode: ModeBV}
 	cfg := &packages.Config{Mode: packages.LoadAllSyntax, Dir: repo, BuildFlags: []string{"-tags=verif"},
 		Env: append(os.Environ(), "GOFLAGS=-mod=mod", "GOPROXY=off", "GOSUMDB=off", "GOTOOLCHAIN=local", "GOOS=linux", "GOARCH=amd64")}
